@@ -87,6 +87,10 @@ def _run(F, R, ctx):
                "it is being waited for is waited for forever, with the heap lock held" % nm, fn.loc(), sample=True)
 
 
+HEAP_LOCK_ALLOW = {
+    "Engine::deep_clone": "copies the heap of an engine into a new, not yet running engine",
+}
+
 LOCK_ALLOW = {
     "SteelThread::new": "constructs the first thread of an engine: no other thread of this runtime exists yet",
     "<Engine as Clone>::clone": "host API on the host's own thread (not a running script thread): it is not among the threads a "
@@ -149,6 +153,42 @@ def world_lock_rule(F, R):
                "publish itself at a safepoint, so this thread — blocked on the mutex, unpublished — is waited for forever" % (
                    key, touched[0]), fn.loc(), sample=True)
     R.floor("C16.d", "mutator-side lock sites of the world-stop lock", n, 3)
+    # 2. the heap lock: a collection runs under it (Heap methods reach the stop-the-world wait), so it is a world lock too
+    heap_stops = any(F.reaches(f.name, r"\{impl Synchronizer\}::enumerate_stacks$", maxdepth=6)
+                     for nme, f in F.fns.items() if re.search(r"closed::\{impl Heap\}::allocate$", nme))
+    R.inst("C16.d", "the heap lock is a world-stop lock (Heap::allocate can reach enumerate_stacks)", heap_stops,
+           "Heap::allocate no longer reaches the stop-the-world wait: the heap-lock part of this rule has nothing to protect "
+           "(anchor changed)", sample=True, nontrivial=False)
+    m = 0
+    for name, fn in sorted(F.fns.items()):
+        if not name.startswith("steel::"):
+            continue
+        if not any(e[1] == "SteelThread" and e[2] == "heap" for _, _, e in fn.events("fld")):
+            continue
+        lk = [cb for _, cb in fn.calls() if re.search(r"Mutex<R,T>\}::(lock|lock_arc)$|Mutex<T>\}::lock$", cb["callee"])]
+        if not lk:
+            continue
+        m += 1
+        key = fn.short()
+        if key in HEAP_LOCK_ALLOW:
+            R.inst("C16.d", "%s locks SteelThread.heap (allowlisted)" % key, True,
+                   sample={"reason": HEAP_LOCK_ALLOW[key]}, nontrivial=False)
+            continue
+        ok = False
+        if fn.d["kind"] == "Closure" and fn.d.get("parent"):
+            parent = fn.d["parent"]
+            holders = [F.fns[parent]] + [f for f in F.fns.values() if f.d.get("parent") == parent]
+            for h in holders:
+                for i, b in h.calls():
+                    if re.search(r"\{impl SteelThread\}::enter_safepoint(_once)?$", b["callee"]) and \
+                            any(e[0] == "closure" and e[1] == fn.name for e in b["e"]):
+                        ok = True
+        R.inst("C16.d", "%s locks SteelThread.heap inside a safepoint" % key, ok and heap_stops,
+               "%s waits for the heap mutex (line %s) outside SteelThread::enter_safepoint: the thread that holds it may be "
+               "running a collection and waiting for every thread to publish itself at a safepoint, so this thread — blocked on "
+               "the mutex, unpublished — is waited for forever (several threads allocating boxes under the JIT hang)" % (
+                   key, lk[0]["line"]), fn.loc(lk[0]["line"]), sample=True)
+    R.floor("C16.d", "lock sites of the heap mutex", m, 8)
 
 
 def _field_ty(F, adt_short, field):
